@@ -6,6 +6,8 @@ package zz_verif
 // the file system and go/parser as symbolic environment.
 
 import (
+	"path/filepath"
+
 	"github.com/reedom/convergen/pkg/parser"
 	"github.com/reedom/convergen/pkg/vrt"
 )
@@ -17,7 +19,14 @@ func C12LoaderHook() {
 	if !vrt.Symbolic() {
 		return
 	}
-	const src, dst, other = "dir/setup.go", "dir/setup.gen.go", "dir/other.go"
+	const src, other = "dir/setup.go", "dir/other.go"
+	// the output path names dir/setup.gen.go under any of several spellings of the directory, or
+	// a file in another directory (another package: outside what the loader lists)
+	abs, _ := filepath.Abs("dir/setup.gen.go")
+	spellings := []string{"dir/setup.gen.go", "./dir/setup.gen.go", "dir/../dir/setup.gen.go", abs, "elsewhere/setup.gen.go"}
+	spelling := vrt.Choose("output-path-spelling", len(spellings))
+	dst := spellings[spelling]
+	sameDir := spelling != 4
 	vrt.SetEnv("fs", "symbolic")
 	vrt.SetEnv("load", "symbolic")
 	dstExists := vrt.Bool("output-file-exists")
@@ -25,12 +34,18 @@ func C12LoaderHook() {
 	vrt.SetEnv("fs.exists:"+dst, dstExists)
 	vrt.SetEnv("fs.exists:"+other, true)
 	// three distinct files (hard links between them are outside the model)
-	vrt.SetEnv("fs.same:"+other+"|"+src, false)
+	pair := func(a, b string) string {
+		if a > b {
+			a, b = b, a
+		}
+		return "fs.same:" + a + "|" + b
+	}
+	vrt.SetEnv(pair(other, src), false)
 	// -out may name the input file itself
 	outIsIn := vrt.Bool("output-is-the-input-file")
-	vrt.SetEnv("fs.same:"+dst+"|"+src, outIsIn)
+	vrt.SetEnv(pair(dst, src), outIsIn)
 	vrt.Assume(vrt.Implies(outIsIn, dstExists))
-	vrt.SetEnv("fs.same:"+other+"|"+dst, false)
+	vrt.SetEnv(pair(other, dst), false)
 	// the loader delivers the package's files in an arbitrary order; the output file, when it
 	// exists, has arbitrary content (stale, truncated, broken)
 	names := []string{src, dst, other}
@@ -55,8 +70,16 @@ func C12LoaderHook() {
 
 	parsed := map[string]int{}
 	srcParseFailed := false
+	overlays := 0
+	pkgClauseFailed := vrt.Bool("parsedisk.err(" + src + ")")
 	for i := 0; i < vrt.EffectCount(); i++ {
 		switch vrt.EffectOp(i) {
+		case "load.overlay":
+			// what the loader is told about the output path: an empty file of the input's package,
+			// under the path's absolute name, whatever the spelling - and nothing else
+			overlays++
+			vrt.Assert("overlay-names-the-output-path", vrt.EffectStr(i, 0) == abs && sameDir && dstExists)
+			vrt.Assert("overlay-is-a-bare-package-clause", vrt.EffectStr(i, 1) == "package pkgname\n")
 		case "ParseFile":
 			f := vrt.EffectStr(i, 0)
 			parsed[f]++
@@ -83,6 +106,13 @@ func C12LoaderHook() {
 		if f != dst && !(outIsIn && f == src) {
 			vrt.Assert("every-other-file-parsed-once", parsed[f] == 1)
 		}
+	}
+	// an existing output file in the input's directory is always presented blank to the loader
+	// (unless the input's own package clause cannot be read, which fails the run anyway)
+	if dstExists && sameDir && !pkgClauseFailed {
+		vrt.Assert("existing-output-presented-blank-under-every-spelling", overlays == 1)
+	} else {
+		vrt.Assert("no-overlay-otherwise", overlays == 0)
 	}
 	// the outcome: decided by the loader's own result and the input file, not by the output path
 	// nor by the package's error lists
